@@ -110,4 +110,7 @@ def cases(tier):
         for which in ("far", "nbc"):
             cs.append(dict(name=f"{which}.ord2.d2", fn=h_far, params=dict(which=which, ord="2", d=2, n_cands=1, n_sibs=1), weight=30, soft=["*"], optional=True, **R))
     cs += tree_cases(PROPERTY, tier, hibernation_values=(False,)) + run_cases(PROPERTY, tier, hib_values=(False,))
+    # the threshold feature handed to NBC_FarEnough: each parent's own mean nearest-better distance (shared with C10 / C15)
+    from . import c10, c15
+    cs += [c for c in c10.cases(tier) if c["name"] == "generators.nbc"] + [c for c in c15.cases(tier) if c["name"].startswith("generator.mean")]
     return cs
